@@ -55,6 +55,14 @@ Section CType.
          | _ => MkLine new (map (force_vtx zero old new) vs)
          end.
 
+  (* ------------------------------------------------------------ NewPoint *)
+  (* type_point.go:NewPoint (with fix F61): fields that the coordinates type does not have are set
+     to zero, so that the representation invariant holds of every Point a caller can build.
+     [v] is the Coordinates struct as the caller filled it. *)
+  Definition new_point (ct : ctype) (v : vtxF) : pointF := MkPoint ct (Some (force_vtx zero XYZM ct v)).
+  (* before F61: Point{c, true}, the struct as given; Point.Coordinates() hands it back *)
+  Definition new_point_raw (ct : ctype) (v : vtxF) : pointF := MkPoint ct (Some v).
+
   (* ------------------------------------------------------------ Reverse *)
   (* type_sequence.go:Reverse copies whole strides: each vertex keeps its own Z and M *)
   Definition reverse_line (l : lineF) : lineF := let 'MkLine ct vs := l in MkLine ct (rev vs).
@@ -539,6 +547,7 @@ Section CType.
 End CType.
 
 Arguments go_force_point {F} _ _ _. Arguments go_force_line {F} _ _ _.
+Arguments new_point {F} _ _ _. Arguments new_point_raw {F} _ _.
 Arguments reverse_line {F} _. Arguments reverse_poly {F} _. Arguments reverse_geom {F} _.
 Arguments tx_vtx {F} _ _. Arguments tx_point {F} _ _. Arguments tx_line {F} _ _.
 Arguments tx_poly {F} _ _ _. Arguments tx_geom {F} _ _ _.
@@ -592,6 +601,7 @@ Definition xyfam_fun (k : xyfam) : xyfun N :=
     | FRot90 => (neg_bits y, x)
     | FConst cx cy => (cx, cy)
     end.
+Definition new_point_n := @new_point N 0.
 Definition apply_n := @apply N 0.
 Definition spec_n := @spec N 0 N.eqb (N.eqb 0).
 Definition consistent_n := @consistent N (N.eqb 0).
